@@ -198,6 +198,31 @@ Proof.
   - simpl. expnorm. apply exp_le_intro. nra.
 Qed.
 
+(* the load is non-increasing in the cycle number *)
+Lemma basquin_load_antitone wc N1 N2 : valid wc -> 0 < N1 -> N1 <= N2 ->
+  basquin_load_of wc N2 <= basquin_load_of wc N1.
+Proof.
+  intros Hv HN1 HN. destr_valid Hv. destruct wc as [k1 k2 sd nd tn ts p]; simpl in *.
+  assert (HN2 : 0 < N2) by lra.
+  destruct (pos_is_exp _ HN1) as [a ->], (pos_is_exp _ HN2) as [b ->], (pos_is_exp _ HSD) as [s ->], (pos_is_exp _ HND) as [d ->].
+  apply exp_le_elim in HN.
+  unfold basquin_load_of, make_k; simpl.
+  destruct (Rlt_dec (- exp b) (- exp d)) as [Hb|Hb], (Rlt_dec (- exp a) (- exp d)) as [Ha|Ha];
+    try (assert (d < b) by (apply exp_lt_inv; lra)); try (assert (d < a) by (apply exp_lt_inv; lra));
+    try (assert (b <= d) by (apply exp_le_elim; lra)); try (assert (a <= d) by (apply exp_le_elim; lra)).
+  - destruct k2 as [k2|]; simpl in *; [|lra]. assert (0 < k2) by lra. expnorm. apply exp_le_intro.
+    assert (0 <= (b - a) / k2) by (apply Rmult_le_pos; [lra|left; now apply Rinv_0_lt_compat]).
+    replace (-1 / k2 * (b - d)) with (-1 / k2 * (a - d) - (b - a) / k2) by (field; lra). lra.
+  - assert (0 <= -1 / k1 * (a - d)) by (apply mul_div_nonneg; lra).
+    destruct k2 as [k2|]; simpl in *.
+    + assert (0 < k2) by lra. expnorm. apply exp_le_intro. generalize (mul_div_neg k2 (b - d)). lra.
+    + expnorm. rewrite <- (Rplus_0_r s) at 1. apply exp_le_intro. lra.
+  - lra.
+  - expnorm. apply exp_le_intro.
+    assert (0 <= (b - a) / k1) by (apply Rmult_le_pos; [lra|left; now apply Rinv_0_lt_compat]).
+    replace (-1 / k1 * (b - d)) with (-1 / k1 * (a - d) - (b - a) / k1) by (field; lra). lra.
+Qed.
+
 (* strictly decreasing where the life is finite *)
 Lemma basquin_cycles_strictly_decreasing wc L1 L2 : valid wc -> 0 < L1 -> L1 < L2 -> (SD wc <= L1 \/ k_2 wc <> PInf) ->
   exists N1 N2, basquin_cycles_of wc L1 = Fin N1 /\ basquin_cycles_of wc L2 = Fin N2 /\ N2 < N1.
